@@ -17,11 +17,14 @@ Correspondence (every run, on /repo as it is):
 (iii)/(iv) are the RDKit-dependent part of C01: they cannot be proved in Lean and rest on this run.
 
 (iii)/(iv) by shape of the input (decided by the harness from the two input graphs, never by the code under test):
- * no explicit hydrogen outside the centre, or none inside it, or `explicit_hydrogen=True`: its_to_rsmi folds nothing, (iii) and (iv);
- * explicit hydrogens on both sides of that line, each one outside bonded to a heavy atom: they are folded into hydrogen counts,
-   the output has fewer atoms, (iv) only;
- * as before but a hydrogen outside the centre has no bond at all (free H / H+ / H- spectator): /repo deletes that atom
-   (`implicit_hydrogen`), the unmapped sides differ - a recorded deviation, counted, not gated.
+ * no explicit hydrogen outside the centre that is bonded to a heavy atom, or none inside it, or `explicit_hydrogen=True`:
+   its_to_rsmi folds nothing, (iii) and (iv);
+ * explicit hydrogens on both sides of that line, at least one outside bonded to a heavy atom: those are folded into hydrogen
+   counts, the output has fewer atoms, (iv) only;
+ * a hydrogen outside the centre without any bond (free H / H+ / H- spectator) next to a hydrogen in the centre is NOT folded
+   and must stay an atom of the output (F29: `implicit_hydrogen` used to delete it; repaired by draft fix 0022, which the Lean
+   model `SynKit.Repr.implicitHydrogen` follows): gated at full strength like the other shapes - (iii) and (iv) when nothing
+   else is folded, (iv) when other spectator hydrogens are.
 The `radical` stream feeds what the corpora lack: free hydrogen atoms, radicals, carbenes, bare atoms, ions (hand-written steps,
 spectators, free-hydrogen forms of the corpus' H-X cleavages, opened valences), the non-default options of its_to_rsmi, and
 the same queries repeated in another order.
@@ -58,8 +61,12 @@ THEOREMS = [
     "SynKit.ITS.construct_swap",
     "SynKit.ITS.C01.graphStatement_holds",
     "SynKit.ITS.implicitH_preserves_totalH",
+    "SynKit.ITS.implicitH_preserves_totalH_of_strict",
     "SynKit.ITS.foldGuard_of_HValence",
+    "SynKit.ITS.implicitH_preserves_totalH_of_HValence",
+    "SynKit.ITS.implicitH_keeps",
     "SynKit.ITS.implicitH_keeps_preserved",
+    "SynKit.ITS.implicitHydrogen_keeps_free_hydrogen",
     "SynKit.ITS.implicitH_removes_only_H",
     "SynKit.ITS.smiGraph_congr",
     "SynKit.ITS.its_to_rsmi_graph_part",
@@ -768,16 +775,21 @@ def reaction_cases(ctx, items, tag, opts=None):
                     rc.update((u, v))
         hs = [n for n, d in its.nodes(data=True) if d.get("element") == "H"]
         hs_in, hs_out = [n for n in hs if n in rc], [n for n in hs if n not in rc]
-        # its_to_rsmi keeps the centre's hydrogens explicit and, WHEN there is one, folds every other explicit hydrogen into the
-        # hydrogen count of its heavy neighbour (not with explicit_hydrogen=True, and not when the centre has no hydrogen: the
-        # graphs then go to RDKit as they are).  A folded output has fewer atoms, so only the unmapped sides are compared.
-        folded = bool(hs_in and hs_out) and not opts.get("explicit_hydrogen")
-        if folded and any(r.degree(n) == 0 or p.degree(n) == 0 for n in hs_out):
-            # recorded deviation of /repo (reported, not gated): a hydrogen atom without any bond outside the centre (spectator
-            # H / H+ / H-, or a free hydrogen that only changes charge) is deleted by implicit_hydrogen when another hydrogen
-            # is in the centre, e.g. [H:1][Cl:2].[NH3:3].[H+:4]>>[H:1][NH3+:3].[Cl-:2].[H+:4]
-            ctx.count(f"{tag}:rsmi-part-skipped:free-hydrogen-outside-centre-while-centre-has-hydrogen(dropped by implicit_hydrogen)")
-            continue
+        # its_to_rsmi keeps the centre's hydrogens explicit and, WHEN there is one, folds every other explicit hydrogen THAT IS
+        # BONDED TO A HEAVY ATOM into the hydrogen count of that neighbour (not with explicit_hydrogen=True, and not when the
+        # centre has no hydrogen: the graphs then go to RDKit as they are).  A folded output has fewer atoms, so only the
+        # unmapped sides are compared.  A hydrogen outside the centre has the same bonds on both sides and none of them to a
+        # hydrogen (H-H bonds are in the centre), so it is either bonded to heavy atoms only or has no bond at all.
+        hs_free_out = [n for n in hs_out if r.degree(n) == 0 and p.degree(n) == 0]
+        hs_bound_out = [n for n in hs_out if n not in hs_free_out]
+        folded = bool(hs_in and hs_bound_out) and not opts.get("explicit_hydrogen")
+        if hs_in and hs_free_out and not opts.get("explicit_hydrogen"):
+            # F29 shape: a hydrogen atom without any bond outside the centre (spectator H / H+ / H-, or a free hydrogen that only
+            # changes charge) while another hydrogen is in the centre, e.g.
+            # [H:1][Cl:2].[NH3:3].[H+:4]>>[H:1][NH3+:3].[Cl-:2].[H+:4]: implicit_hydrogen has no atom to fold it into and must
+            # leave it in the graph.  Gated like every other shape (this used to be skipped as a recorded deviation).
+            ctx.count(f"{tag}:rsmi-roundtrips:free-hydrogen-outside-centre-while-centre-has-hydrogen(must be kept; F29)"
+                      + (":other-spectator-hydrogens-folded" if folded else ":nothing-folded"))
         if hs and not folded:
             ctx.count(f"{tag}:rsmi-roundtrips:explicit-hydrogens-all-kept" + (":free-hydrogen-atom" if any(r.degree(n) == 0 or p.degree(n) == 0 for n in hs) else ""))
         out = its_to_rsmi(its, **opts)
